@@ -79,19 +79,24 @@ Definition convert_ok (from : ptype) (rows cols : nat) (to : ptype) : bool :=
             else Nat.eqb rows cols
   end.
 
-(* what save does after the checks: Touchstone 1 normalisation copy (to S, T or U), then one
+(* what save does after the checks: the Touchstone 1 normalisation copy (to S, T or U) - only when the file stays
+   Touchstone 1 (no promotion to version 2) and z0[0] != 1.0 ([z0_one] = the test z0_vector[0] == 1.0) - then one
    conversion per entry with an explicit parameter type, from the (possibly replaced) data *)
-Definition save_conversions (o : sobj) : bool :=
+Definition ts1_kept (o : sobj) : bool :=
+  match o_filetype o with
+  | TS1 => negb (o_promote o && (Nat.ltb 4 (o_ports o) || negb (o_z0_equal o)))
+  | _ => false
+  end.
+Definition save_conversions (z0_one : bool) (o : sobj) : bool :=
   let t := o_type o in
   let norm := match t with PT => PT | PU => PU | _ => PS end in
   let l := eff_format o in
   let resolved := map (fun e => resolve t e) l in
-  match o_filetype o with
-  | TS1 => convert_ok t (o_rows o) (o_ports o) norm &&
-           forallb (fun p => convert_ok norm (o_rows o) (o_ports o) p) resolved
-  | _ => forallb (fun p => convert_ok t (o_rows o) (o_ports o) p) resolved
-  end.
+  if ts1_kept o && negb z0_one
+  then convert_ok t (o_rows o) (o_ports o) norm &&
+       forallb (fun p => convert_ok norm (o_rows o) (o_ports o) p) resolved
+  else forallb (fun p => convert_ok t (o_rows o) (o_ports o) p) resolved.
 
-Definition save_gen (two_port : bool) (o : sobj) : bool := cksave_gen two_port o && save_conversions o.
+Definition save_gen (two_port z0_one : bool) (o : sobj) : bool := cksave_gen two_port o && save_conversions z0_one o.
 Definition save := save_gen true.
 Definition save_d32 := save_gen false.
